@@ -171,7 +171,7 @@ mutual
     log, with the events of that evaluation appended to the log -/
 theorem evalExpr_log (env : Env) : ∀ (x : Expr) (log : Log),
     evalExpr env x log = ((evalExpr env x []).1, log ++ (evalExpr env x []).2)
-  | .num l, log => by simp [evalExpr]
+  | .num l, log => by simp only [evalExpr]; split <;> simp
   | .str s, log => by simp [evalExpr]
   | .errLit t, log => by simp [evalExpr]
   | .blankSlot, log => by simp [evalExpr]
@@ -283,7 +283,29 @@ def liftRes (r : Ops.Res) : Except Exn Value :=
   | .ok v => .ok v
   | .error e => .error (.py (singletonMessage e))
 
-@[simp] theorem outcome_num (env : Env) (l : NumLit) : outcome env (.num l) = .ok (evalNumLit l) := rfl
+/-- a number literal: `#NUM!` is thrown for a literal power of at least 2^1024 (the guard of
+    `p_expression_number`), every other literal is the number it spells -/
+theorem outcome_num (env : Env) (l : NumLit) :
+    outcome env (.num l) = if numLitTooBig l then .error (.xl .num) else .ok (evalNumLit l) := by
+  unfold outcome; rw [evalExpr]; split <;> rfl
+
+/-- a literal below the guard evaluates to the number it spells -/
+theorem outcome_num_small (env : Env) {l : NumLit} (h : numLitTooBig l = false) :
+    outcome env (.num l) = .ok (evalNumLit l) := by
+  rw [outcome_num, h]; rfl
+
+/-- a literal power at or above the guard throws `#NUM!` -/
+theorem outcome_num_big (env : Env) {l : NumLit} (h : numLitTooBig l = true) :
+    outcome env (.num l) = .error (.xl .num) := by
+  rw [outcome_num, h]; rfl
+
+/-- only the literal-power form can trip the guard -/
+@[simp] theorem numLitTooBig_int (a : List Char) : numLitTooBig (.int a) = false := rfl
+@[simp] theorem numLitTooBig_dec (a b : List Char) : numLitTooBig (.dec a b) = false := rfl
+@[simp] theorem numLitTooBig_dotDec (b : List Char) : numLitTooBig (.dotDec b) = false := rfl
+@[simp] theorem numLitTooBig_pct (a : List Char) : numLitTooBig (.pct a) = false := rfl
+@[simp] theorem outcome_num_int (env : Env) (a : List Char) :
+    outcome env (.num (.int a)) = .ok (evalNumLit (.int a)) := outcome_num_small env rfl
 @[simp] theorem outcome_str (env : Env) (s : List Char) : outcome env (.str s) = .ok (.str s) := rfl
 @[simp] theorem outcome_blank (env : Env) : outcome env .blankSlot = .ok .blank := rfl
 @[simp] theorem outcome_errLit (env : Env) (t : List Char) :
@@ -824,7 +846,7 @@ theorem arith_num (fuel : Nat) (op : ArithOp) (a b : Num) :
   evalArith_scalar fuel op _ _ rfl rfl (fun _ h => by cases h) (fun _ h => by cases h)
 
 theorem outcome_oneByZero (env : Env) : outcome env oneByZero = .ok (.err .div0) := by
-  simp only [oneByZero, one, zero, outcome_bin, outcome_num, bind, Except.bind, binOfOp, evalNumLit, arith_num]
+  simp only [oneByZero, one, zero, outcome_bin, outcome_num_int, bind, Except.bind, binOfOp, evalNumLit, arith_num]
   rfl
 
 theorem outcome_naCall : outcome Env.empty naCall = .ok (.err .na) := by
